@@ -194,11 +194,15 @@ func (p *dpPoint) UnmarshalFrom(r io.Reader) (int, error) {
 // Hash implements kyber.HashablePoint: the logarithm is derived from SHA-256
 // of a group tag and the message (a "random oracle" into the group); the call
 // is recorded for the model's hash-to-point table.
-func (p *dpPoint) Hash(m []byte) kyber.Point {
-	d1 := sha256.Sum256(append([]byte{'H', p.g.tag}, m...))
+func dpHashLog(q *big.Int, tag byte, m []byte) *big.Int {
+	d1 := sha256.Sum256(append([]byte{'H', tag}, m...))
 	d2 := sha256.Sum256(d1[:])
 	v := new(big.Int).SetBytes(append(d1[:], d2[:8]...))
-	p.v = v.Mod(v, p.q())
+	return v.Mod(v, q)
+}
+
+func (p *dpPoint) Hash(m []byte) kyber.Point {
+	p.v = dpHashLog(p.q(), p.g.tag, m)
 	p.g.s.ids = append(p.g.s.ids, idEntry{g2: p.g.tag == 1, id: append([]byte{}, m...), log: new(big.Int).Set(p.v)})
 	return p
 }
